@@ -37,6 +37,15 @@ type Event struct {
 
 var errEIO = errors.New("simdev: input/output error")
 
+// errTimedOut is what a dead peer looks like after the kernel gave up: an error whose Timeout() is true ("connection timed out")
+type timedOutErr struct{}
+
+func (timedOutErr) Error() string   { return "simdev: read: connection timed out" }
+func (timedOutErr) Timeout() bool   { return true }
+func (timedOutErr) Temporary() bool { return false }
+
+var errTimedOut error = timedOutErr{}
+
 // ErrEIO is the persistent non-EOF error used by loss kind "err".
 func ErrEIO() error { return errEIO }
 
@@ -321,6 +330,10 @@ func (p *Pipe) Read(n int) ([]byte, error) {
 				return nil, io.EOF
 			}
 
+			if kind == "errtmo" {
+				return nil, errTimedOut
+			}
+
 			return nil, errEIO
 		}
 
@@ -332,6 +345,10 @@ func (p *Pipe) Read(n int) ([]byte, error) {
 
 			if kind == "eof" || kind == "eofhalf" {
 				return nil, io.EOF
+			}
+
+			if kind == "errtmo" {
+				return nil, errTimedOut
 			}
 
 			return nil, errEIO
